@@ -61,7 +61,7 @@ def ev(e: E, env: Dict[str, Any], macros: Dict[str, Macro], depth: int = 0) -> A
                 return int(v)
             if ty in ("VARCHAR", "TEXT", "STRING"):
                 return str(v) if not isinstance(v, datetime.date) else v.isoformat()  # a Python float prints 2.0 as DuckDB does
-            if ty == "DATE":
+            if ty in ("DATE", "TIMESTAMP"):  # times of day are not modelled: a TIMESTAMP is the date at midnight
                 if isinstance(v, datetime.date):
                     return v
                 m = re.fullmatch(r"\s*(\d{4})-(\d{1,2})-(\d{1,2})\s*", str(v))
@@ -194,6 +194,10 @@ def ev(e: E, env: Dict[str, Any], macros: Dict[str, Macro], depth: int = 0) -> A
             return args[0].month
         if name == "day":
             return args[0].day
+        if name == "quarter":
+            return (args[0].month - 1) // 3 + 1
+        if name == "dayofweek":
+            return args[0].isoweekday() % 7
         if name == "split_part":
             parts_ = str(args[0]).split(str(args[1]))
             i_ = int(args[2])
